@@ -181,6 +181,32 @@ the 16-byte value. -/
 def routeIpVersion (is4 : Bool) (dst16 : Nat) : Nat :=
   if is4 || dst16 / 2 ^ 32 == 0xffff then 1 else 2
 
+/-- The arguments `ControlPlane.Route` receives: `netip.AddrPort`s (an address is either a 4-byte or a
+16-byte value; `is4` = `Addr.Is4()`), the sniffed name's domain bits, the l4 protocol, and the kernel's
+routing result (6-byte MAC, 16-byte process name, DSCP). -/
+structure RouteArgs where
+  srcIs4 : Bool
+  src : Nat            -- 32-bit value when `srcIs4`, else the 128-bit value
+  dstIs4 : Bool
+  dst : Nat
+  sport : Nat
+  dport : Nat
+  l4 : Nat
+  pname : List Nat
+  dscp : Nat
+  mac6 : Nat           -- 48-bit value
+  dom : List Bool
+deriving Repr
+
+/-- `netip.Addr.As16()`: IPv4 addresses in IPv4-mapped form. -/
+def as16 (is4 : Bool) (a : Nat) : Nat := if is4 then mapped4 a else a
+
+/-- What `Route` hands to `Match`: both addresses `As16()`, the IP version from the destination, the
+MAC in bytes 10..15 of a 16-byte array (numerically: the 48-bit value itself). -/
+def pktOfRoute (a : RouteArgs) : Pkt :=
+  let dst16 := as16 a.dstIs4 a.dst
+  ⟨as16 a.srcIs4 a.src, dst16, a.sport, a.dport, routeIpVersion a.dstIs4 dst16, a.l4, a.pname, a.dscp, a.mac6, a.dom⟩
+
 /-- Well-formedness of what the generator / parser can produce. -/
 def Pkt.WF (p : Pkt) : Prop :=
   p.src < 2 ^ 128 ∧ p.dst < 2 ^ 128 ∧ p.mac < 2 ^ 48 ∧ (p.l4 = 1 ∨ p.l4 = 2) ∧ (p.ipver = 1 ∨ p.ipver = 2)
